@@ -59,7 +59,7 @@ def crash_key(kind, errfile):
     cls = None
     m = re.search(r"ERROR: AddressSanitizer: (\S+)", txt)
     if m:
-        cls = "asan:" + m.group(1)
+        cls = "asan:" + ("memory-fault" if m.group(1) in ("SEGV", "BUS", "FPE", "ILL") else m.group(1))
     else:
         m = re.search(r"runtime error: ([^\n]*)", txt)
         if m:
@@ -362,7 +362,7 @@ def do_check(pid, tier):
     for key, path, n, v in new_findings:
         log("VIOLATION property=%s replay=%s" % (pid, path))
         log("   key=%s instances=%d case=%s" % (key, n, v["desc"][:300]))
-        log("   detail=%s" % (v.get("detail", "")[:500]))
+        log("   detail=%s" % (v.get("detail", "")[:300]))
         rc = 1 if rc != 2 else rc
     if new_findings and rc == 2:
         rc = 1
